@@ -125,6 +125,9 @@ Definition valid_ticker (t : ticker) : bool := (0 <? t) && (t <? 63).
 Definition add_to_balance (s : db) (a : addr) (t : ticker) (v : Z) : res db :=
   if negb (valid_ticker t) then Fail E_BADCOLUMN
   else if two63 <=? v then Fail E_SQLARG
+  (* SQLite would store a REAL once the cell leaves the int64 range and every later read of it into a
+     uint64 fails: the model stops here instead — cells above 2^63-1 are outside its domain *)
+  else if max_int64 <? get_bal (bal s) a t + v then Fail E_OVERFLOW_CELL
   else Ok (set_bal s (<[(a, t) := get_bal (bal s) a t + v]> (bal s))).
 
 (* SubFromBalance: returns (txErr?, db) *)
